@@ -21,6 +21,12 @@ COMPILERS = {"rel": "g++", "asan": "clang++", "tsan": "clang++"}
 # property table. engine "rc": a rapidcheck executable built in the `rel` flavour.
 # quick/thorough: (multiplier on each sub-check's base case count, number of parallel seeds)
 PROPS = {
+    "C13": dict(engine="rc", exe="c13", quick=(1, 6), thorough=(20, 16),
+                assumptions=["world parameters stay inside the physical domain (positive constants, dips in (0,180), thickness > 0); degenerate *parameters* belong to C12",
+                             "a query may throw std::exception with a message; it may not crash, hang (120 s per case) or return NaN/Inf"]),
+    "C15": dict(engine="rc", exe="c15", quick=(1, 4), thorough=(20, 16),
+                assumptions=["'a draw happened' is observed by comparing the world's public engine state before and after a query",
+                             "rotation validity tolerance 1e-12 on R^T R - I and det R - 1"]),
     "C16": dict(engine="rc", exe="c16", quick=(1, 4), thorough=(20, 16),
                 assumptions=["the native reference world receives exactly the same sequence of calls as the wrapped one (random models draw per call)",
                              "declaration files are observed by listing a scratch working directory"]),
